@@ -23,6 +23,7 @@ type c22Req struct {
 	AE     string `json:"accept_encoding"`
 	Size   int    `json:"body_size"`
 	Stream bool   `json:"streamed"`
+	API    string `json:"body_api,omitempty"` // set | raw | append | stream-sized | stream-unknown (when not streamed through a writer)
 	PreEnc string `json:"preset_content_encoding"`
 	Method string `json:"method"`
 }
@@ -52,7 +53,7 @@ func scenC22(e *Env) func() {
 		n := e.Range(2, 7)
 		for i := 0; i < n; i++ {
 			p.Reqs = append(p.Reqs, c22Req{ID: fmt.Sprint(i), AE: Pick(e, "", "gzip", "deflate", "br", "zstd", "gzip, deflate, br", "br;q=0.1, gzip;q=0.9", "identity", "gzip;q=0", "*", "compress, x-unknown", "GZIP", "deflate, gzip;q=0", "zstd, br"),
-				Size: Pick(e, 0, 1, 199, 200, 201, 1000, 5000, 70000), Stream: e.Chance(35), PreEnc: Pick(e, "", "", "", "gzip", "identity", "x-custom"), Method: Pick(e, "GET", "GET", "HEAD")})
+				Size: Pick(e, 0, 1, 199, 200, 201, 1000, 5000, 70000), Stream: e.Chance(35), PreEnc: Pick(e, "", "", "", "gzip", "identity", "x-custom"), Method: Pick(e, "GET", "GET", "HEAD"), API: Pick(e, "set", "set", "raw", "append", "stream-sized", "stream-unknown")})
 		}
 	} else {
 		gmp := simrt.GOMAXPROCS(0)
@@ -135,7 +136,19 @@ func c22Handler(e *Env, p *c22Plan) {
 				}
 			})
 		} else {
-			ctx.SetBody(body)
+			switch r.API {
+			case "raw":
+				ctx.Response.SetBodyRaw(body)
+			case "append":
+				ctx.SetBody(body[:len(body)/2])
+				ctx.Response.AppendBody(body[len(body)/2:])
+			case "stream-sized":
+				ctx.SetBodyStream(bytes.NewReader(body), len(body))
+			case "stream-unknown":
+				ctx.SetBodyStream(bytes.NewReader(body), -1)
+			default:
+				ctx.SetBody(body)
+			}
 		}
 		if r.PreEnc != "" {
 			ctx.Response.Header.Set("Content-Encoding", r.PreEnc)
